@@ -9,13 +9,17 @@ use std::{
     task::{Context, Poll},
 };
 
-use futures_util::{AsyncRead, AsyncWrite, AsyncWriteExt};
+use futures_util::{AsyncRead, AsyncWrite, AsyncWriteExt, ready};
 use native_tls::{Error, HandshakeError, MidHandshakeTlsStream};
 
 use super::common::AllowStd;
 
 #[derive(Debug)]
-pub struct TlsStream<S>(native_tls::TlsStream<AllowStd<S>>);
+pub struct TlsStream<S>(
+    native_tls::TlsStream<AllowStd<S>>,
+    // Whether `close_notify` has been handed to the transport by `poll_close`.
+    bool,
+);
 
 #[derive(Clone)]
 pub struct TlsConnector(native_tls::TlsConnector);
@@ -113,7 +117,18 @@ where
     }
 
     fn poll_close(mut self: Pin<&mut Self>, ctx: &mut Context<'_>) -> Poll<io::Result<()>> {
-        self.with_context(ctx, |s| s.shutdown())
+        // `shutdown` writes the `close_notify` alert and flushes the transport, but
+        // the backend ignores the result of that flush. If the transport could not
+        // flush immediately, the alert would stay in its buffer and the peer would
+        // never see the end of the stream, so drive the flush to completion here.
+        //
+        // `shutdown` must not be called again once it succeeded: a second call
+        // waits for the `close_notify` of the peer.
+        if !self.1 {
+            ready!(self.with_context(ctx, |s| s.shutdown()))?;
+            self.1 = true;
+        }
+        self.with_context(ctx, |s| s.flush())
     }
 }
 
@@ -160,7 +175,7 @@ where
         match (inner.f)(stream) {
             Ok(mut s) => {
                 s.get_mut().clear_context();
-                Poll::Ready(Ok(StartedHandshake::Done(TlsStream(s))))
+                Poll::Ready(Ok(StartedHandshake::Done(TlsStream(s, false))))
             }
             Err(HandshakeError::WouldBlock(mut s)) => {
                 s.get_mut().clear_context();
@@ -224,7 +239,7 @@ impl<S: AsyncRead + AsyncWrite + Unpin> Future for MidHandshake<S> {
         match s.handshake() {
             Ok(mut s) => {
                 s.get_mut().clear_context();
-                Poll::Ready(Ok(TlsStream(s)))
+                Poll::Ready(Ok(TlsStream(s, false)))
             }
             Err(HandshakeError::WouldBlock(mut s)) => {
                 s.get_mut().clear_context();
